@@ -27,7 +27,14 @@ func inCycle(f *ssa.Function, i ssa.Instruction) bool {
 func readyPartsIndependent(c *Ctx, r *Report, rule string) {
 	ro := discoverRoles(c)
 	n := 0
+	var bodies []*ssa.Function
 	for _, f := range ro.readyLoops {
+		bodies = append(bodies, f)
+		if h, _ := readyBodyHelper(f); h != nil {
+			bodies = append(bodies, h)
+		}
+	}
+	for _, f := range bodies {
 		// reads of rd.CommittedEntries
 		eachInstr(f, func(i ssa.Instruction) {
 			var fld *types.Var
